@@ -206,6 +206,24 @@ def unhashable_ops(tree, node):
         ("set_data(None, data_id={})", lambda: node.set_data(None, data_id={}, with_clones=True)),
         ("set_data([1, 2])", lambda: node.set_data([1, 2], with_clones=True)),
     ]
+    # arguments that the documentation declares invalid, outside the model's operation alphabet
+    ops += [
+        ("node.filter(None)", lambda: node.filter(None)),
+        ("node.filtered(None)", lambda: node.filtered(None)),
+        ("tree.filter(None)", lambda: tree.filter(None)),
+        ("tree.filtered(None)", lambda: tree.filtered(None)),
+        ("tree.find_all()", lambda: tree.find_all()),
+        ("tree.find_first()", lambda: tree.find_first()),
+        ("tree == tree", lambda: tree == tree),
+        ("node.up(0)", lambda: node.up(0)),
+        ("node.up(99)", lambda: node.up(99)),
+    ]
+    if hasattr(node, "kind"):
+        from nutree import Tree as _PlainTree
+
+        plain = _PlainTree("plain")
+        pn = plain.add("P-unh")
+        ops += [("typed.add(<plain node>)", lambda: node.add(pn, kind="k")), ("typed.add(<plain tree>)", lambda: node.add(plain, kind="k"))]
     if not node.children and not hasattr(node, "kind"):
         ops.append(("from_dict([{data_id: [1]}])", lambda: node.from_dict([{"data": "x-unh", "data_id": [1]}])))
     return ops
